@@ -49,7 +49,7 @@ var c06 = &vh.Prop[c06Case]{
 			c.T = genPointerShaped(t)
 			c.Vals = []vh.Val{vh.GenVal(t, c.T, vh.VProfile{Cfg: c.Cfg})}
 		} else {
-			c = genTypedCase(t, 1)
+			c = genTypedCase(t, 3)
 		}
 		// extra weight on values that encode to nothing
 		if rapid.IntRange(0, 4).Draw(t, "zero") == 0 {
@@ -142,6 +142,34 @@ var c06 = &vh.Prop[c06Case]{
 		// value not modified by marshalling
 		if after := vh.FromReflect(c.T, rv); vh.Diff(c.T, after, vh.FromReflect(c.T, vh.ToReflect(c.T, v))) != "" {
 			return vh.Fail("C06/value-modified", "Marshal changed the value")
+		}
+		// the same variable, changed in place, marshalled again into a buffer the caller supplies: the
+		// encoding depends on the value now in it, not on what was at that address before. The expected
+		// bytes come from a second instance that has never seen this variable.
+		if len(c.Vals) > 1 {
+			p2 := vh.NewPlenc(c.Cfg)
+			for i, w := range c.Vals[1:] {
+				rv.Set(vh.ToReflect(c.T, w))
+				fresh := vh.ToReflect(c.T, w)
+				want, err := p2.Marshal(nil, fresh.Addr().Interface())
+				if err != nil {
+					return vh.Fail("C06/marshal-error", "Marshal(nil, &w): %v", err)
+				}
+				buf := make([]byte, len(c.Prefix), len(c.Prefix)+8)
+				copy(buf, c.Prefix)
+				got, err := p.Marshal(buf, rv.Addr().Interface())
+				if err != nil {
+					return vh.Fail("C06/marshal-error", "Marshal(buf, &v) after changing v in place: %v", err)
+				}
+				wasUnordered := unordered
+				unordered = hasMultiEntryMap(c.T, w)
+				ok := len(got) >= len(c.Prefix) && bytes.Equal(got[:len(c.Prefix)], c.Prefix) && same(got[len(c.Prefix):], want)
+				unordered = wasUnordered
+				if !ok {
+					return vh.Fail("C06/encoding-depends-on-history", "value %d written over the variable that held value %d, then Marshal(buf, &v): % x, but a fresh copy on a fresh instance encodes to % x", i+1, i, got, want)
+				}
+				x.Label("in-place-change")
+			}
 		}
 		if len(c.Prefix) > 0 {
 			x.NonTrivial()
